@@ -41,6 +41,11 @@ OPS = {
     0xf2: ["refaddr", "sleb"],       # GNU_implicit_pointer
     0xa0: ["refaddr", "sleb"],       # implicit_pointer
 }
+for _c in (0x14, 0x16, 0x17, 0x18, 0x19, 0x1a, 0x1b, 0x1d, 0x1e, 0x1f, 0x20, 0x21, 0x24, 0x25, 0x26, 0x27,
+           0x29, 0x2a, 0x2b, 0x2c, 0x2d, 0x2e, 0x97, 0x9b, 0xe0, 0xf0):
+    OPS[_c] = []                 # over swap rot xderef abs and div mod mul neg not or shl shr shra xor eq..ne ...
+OPS[0x15] = ["u1"]               # pick
+OPS[0x95] = ["u1"]               # xderef_size
 for _r in range(32):
     OPS[0x30 + _r] = []          # lit0..31
     OPS[0x50 + _r] = []          # reg0..31
